@@ -95,3 +95,5 @@ META = dict(
                 "not part of the round trip)."),
     technique="runtime monitoring: generator-derived expected sequence + independent reader + skip-boundary oracle + ASan",
 )
+
+CFG["rule"] += (" " + "Additions: 'long' programs of 300-2700 tiny items nearly all skipped in-stream with one decoder; a third of the tag numbers are registered ones (incl. 55799); every 2048th case writes strings of 33-70 MiB into one encoder; stages mt_tsan/mt_rel (several threads, digest compared with the single-threaded run); stale aws_last_error()/errno.")
